@@ -684,12 +684,20 @@ class Interp:
             # short-circuit: later operands are only evaluated under the guard of the earlier ones
             is_or = isinstance(e.op, ast.Or)
             vals = []
+            guard: Any = True  # later operands are only evaluated when the earlier ones did not decide
             for sub in e.values:
+                mark = len(self.pending)
+                saved_pc = self.cur_pc
+                self.cur_pc = conj(saved_pc, guard)
                 v = self.expr(sub, env, glb)
+                self.cur_pc = saved_pc
+                if guard is not True:
+                    self.pending[mark:] = [(conj(guard, c), x) for c, x in self.pending[mark:]]
                 t = self.truth(v)
                 vals.append((v, t))
                 if (is_or and t is True) or (not is_or and t is False):
                     break
+                guard = conj(guard, neg(t) if is_or else t)
             if all(isinstance(t, bool) for _, t in vals):
                 # python returns the deciding operand
                 for v, t in vals:
@@ -1055,6 +1063,8 @@ class Interp:
     def call_symbolic(self, f, args, kwargs):
         if f is str.__new__:
             return args[1]
+        if f in (enumerate, list, tuple, zip, reversed, range) and all(isinstance(a, (list, tuple, int)) for a in args):
+            return list(f(*args, **kwargs))
         if f is str:
             (x,) = args
             if isinstance(x, (BStr, str)):
